@@ -1,5 +1,5 @@
 # replay of a bounded stand-in violation (C16): re-run native/c16_states.py
 import sys
-print('fock n=2 pure=False: wigner(1) on a 9 x 6 grid has shape (9, 6), the other representations return (6, 9)')
+print('n=2 pure=True cat: quad_expectation(1,0.8) = [0.6112, 0.95074] on bosonic, [0.6112, 2.20028] on fock')
 print('REPLAY-VIOLATION')
 sys.exit(1)
